@@ -297,6 +297,31 @@ class Check(Property):
                          f"Python's format gives {want}")
         return v
 
+    def small_exponent_probe(self):
+        """plain-text formats round-trip: non-integral exponents written with up to six significant digits parse back to the
+        same unit, whatever their size (0.5, 1.5, 0.0625, 0.0123456, 0.000271828 ...) - long and short names, with a magnitude"""
+        v = []
+        r = regs.ureg("float")
+        exps = [0.5, 1.5, 2.25, 0.0625, 0.0123456, 0.00123456, 0.0833333, 0.000271828, -0.0123456, 0.333333, 12.3456, 0.1, 0.015625]
+        for e in exps:
+            for base, other in (("meter", None), ("meter", "second"), ("kilogram", "kelvin")):
+                un = r.meter ** e if base == "meter" else r.kilogram ** e
+                if other:
+                    un = un / getattr(r, other)
+                for spec in ("", "D", "C", "~", "~C"):
+                    try:
+                        text = format(un, spec)
+                        back = r.parse_units(text)
+                        qtext = format(r.Quantity(2.5, un), spec)
+                        qback = r.Quantity(qtext)
+                        ok = back == un and qback.units == un and qback.magnitude == 2.5
+                    except Exception as exc:  # noqa: BLE001
+                        ok, text = False, f"{type(exc).__name__}: {exc}"
+                    if not ok:
+                        v.append(f"C09 format({dict(un._units)}, {spec!r}) = {text!r} does not parse back to the unit")
+                        break
+        return v[:6]
+
     def symbol_source_probe(self):
         """the ~ formats write the symbol the unit has in THIS registry NOW: two registries that give one name different symbols,
         and a unit defined again with another symbol, each render their own current symbol (in every style)"""
@@ -331,7 +356,7 @@ class Check(Property):
     def oracle(self, c):
         if not getattr(self, "_symsrc_done", False):
             self._symsrc_done = True
-            sv = self.symbol_source_probe()
+            sv = self.symbol_source_probe() + self.small_exponent_probe()
             if sv:
                 return sv
         if c["kind"] == "split":
